@@ -27,7 +27,7 @@ RULE = (
     "fixed-tau, or a round trip, or a scaling case with >= 50 samples. Distinct = hash of the case record."
 )
 ASSUMPTIONS = [
-    "M from 1e-6 to 1e12 and tau from 1e-3 to 1e6 (any production / time unit); an earlier version of this check restricted round trips to M^2/tau >= 1e-3 and called the failures below that SciPy's business - wrongly: the fit must not depend on the production unit, and the library now normalises the data (fix 5cafe7e)",
+    "M from 1e-6 to 1e12 and tau from 1e-6 to 3e9 (any production / time unit: 10 years are 3.2e8 s); an earlier version of this check restricted round trips to M^2/tau >= 1e-3 and called the failures below that SciPy's business - wrongly: the fit must not depend on the production unit, and the library now normalises the data (fix 5cafe7e)",
     "lower bounds are finite (physical parameters are positive); upper bounds finite or +inf",
     "round trip tolerance 1e-3 relative; fixed-tau optimum: the fitted M may exceed the closed-form bounded optimum's sum of squares by at most 1e-9 of the data's sum of squares (|dM|/M <~ 3e-5); when the optimum is an active bound, within 1e-3 relative of that bound",
     "a fit that raises (optimiser did not converge on arbitrary data) yields no fitted value and is counted, not reported",
@@ -93,7 +93,7 @@ def strategy_(draw):
         "kind": kind,
         "curve": draw(st.sampled_from(["ideal", "realgas", "analytic", "synthetic", "ideal-short", "cubic", "previous-extrapolate"])),
         "logM": draw(st.one_of(st.floats(-1.0, 12.0), st.floats(-6.0, 12.0))),
-        "logtau": draw(st.one_of(st.floats(-3.0, 5.0), st.floats(-3.0, 6.0))),
+        "logtau": draw(st.one_of(st.floats(-3.0, 5.0), st.floats(-6.0, 9.5))),  # years ... seconds: 10 years are 3.2e8 s
         "n": draw(st.integers(50, 400)),
         "end": draw(st.floats(0.6, 3.0)),
         "quadratic": draw(st.booleans()),
@@ -322,7 +322,7 @@ def check_case(case) -> Result:
         res.labels["fixed_tau_optimum"] = "on a bound" if at_bound else "interior"
         if at_bound:
             # SciPy's trust-region-reflective iterates stay strictly inside and stop ~1e-5 short of an active bound
-            res.check("C05/fixed-tau-bounded-least-squares-optimum", abs(f.M_ - want), 1e-3 * abs(want), f"fixed-tau fit: M_={f.M_!r}, optimum is the bound {want!r} (unconstrained {m_star!r}, bounds ({mlo!r},{mhi!r}));")
+            res.check("C05/fixed-tau-bounded-least-squares-optimum", abs(f.M_ - want), 1e-3 * abs(want) + 1e-9 * math.sqrt(float(np.dot(y, y)) / float(np.dot(r, r))), f"fixed-tau fit: M_={f.M_!r}, optimum is the bound {want!r} (unconstrained {m_star!r}, bounds ({mlo!r},{mhi!r}));")
         else:
             # optimality in terms of the objective (the optimiser's own stopping rule is relative to the cost)
             excess = float(np.sum((f.M_ * r - y) ** 2) - np.sum((want * r - y) ** 2))
